@@ -19,9 +19,14 @@ def text(chars):
     return "".join(chars)
 
 
-def write_book(path, book, target):
+EPOCH_1904 = 1462  # days between the two date systems of workbooks (1900-01-00 and 1904-01-01)
+
+
+def write_book(path, book, target, date_1904=False):
+    """date_1904: the workbook counts days from 1904; date serials are shifted so that the cells denote the same days."""
     import xlsxwriter
-    workbook = xlsxwriter.Workbook(path)
+    workbook = xlsxwriter.Workbook(path, {"date_1904": True} if date_1904 else {})
+    shift = EPOCH_1904 if date_1904 else 0
     date_format = workbook.add_format({"num_format": "yyyy-mm-dd"})
     datetime_format = workbook.add_format({"num_format": "yyyy-mm-dd hh:mm:ss"})
     time_format = workbook.add_format({"num_format": "hh:mm:ss"})
@@ -47,13 +52,13 @@ def write_book(path, book, target):
                 elif kind == "bool":
                     worksheet.write_boolean(y, x, cell["b"])
                 elif kind == "date":
-                    worksheet.write_number(y, x, cell["serial"], date_format)
+                    worksheet.write_number(y, x, cell["serial"] - shift, date_format)
                 elif kind == "datetime":
-                    worksheet.write_number(y, x, cell["serial"] + cell["sec"] / 86400.0, datetime_format)
+                    worksheet.write_number(y, x, cell["serial"] - shift + cell["sec"] / 86400.0, datetime_format)
                 elif kind == "time":
                     worksheet.write_number(y, x, cell["sec"] / 86400.0, time_format)
                 elif kind == "datetimems":
-                    worksheet.write_number(y, x, cell["serial"] + (cell["sec"] + cell["ms"] / 1000.0) / 86400.0, datetime_format)
+                    worksheet.write_number(y, x, cell["serial"] - shift + (cell["sec"] + cell["ms"] / 1000.0) / 86400.0, datetime_format)
                 elif kind == "timems":
                     worksheet.write_number(y, x, (cell["sec"] + cell["ms"] / 1000.0) / 86400.0, time_format)
                 else:
@@ -92,6 +97,18 @@ def _job(job):
     if rows != expected:
         problems.append("%s: excel_rows returns %r but the sheet holds %r" % (what, rows, expected))
         return problems
+    # the same days in a workbook of the 1904 date system (old Macintosh workbooks): the same texts
+    dated = [cell for row in (vec["book"][vec["wanted"] - 1] if vec["wanted"] <= len(vec["book"]) else []) for cell in row
+             if cell["k"] in ("date", "datetime", "datetimems")]
+    if dated and all(cell["serial"] > EPOCH_1904 + 1 for cell in dated):
+        write_book(path, vec["book"], vec["wanted"], date_1904=True)
+        try:
+            rows_1904 = list(rowio.excel_rows(path, vec["wanted"]))
+        except Exception as error:  # noqa
+            rows_1904 = "%s: %s" % (type(error).__name__, error)
+        if rows_1904 != expected:
+            problems.append("%s, workbook of the 1904 date system: excel_rows returns %r but the sheet holds %r" % (what, rows_1904, expected))
+        write_book(path, vec["book"], vec["wanted"])
     if expected and expected[0] and all(row[0] != "" for row in expected):
         cid = cutplace.Cid()
         cid.read("cid", [["D", "Format", "excel"], ["D", "Sheet", str(vec["wanted"])]] + [
